@@ -206,6 +206,10 @@ func (r Req) Coq(bk *Bks, secret string) string {
 	if k, ok := r.Auth.SignedKey(secret); ok {
 		mb.Signed = &k
 	}
+	if r.Route != "opaque" && r.RawReq == "" {
+		// the model's own router reads the request line; the harness's idea of the route is not passed on
+		return lib.App("req_of", lib.App("mkline", lib.Str(r.Method), lib.Str(r.Target), mb.Coq(bk), bid, exp))
+	}
 	return lib.App("mkreq", route, mb.Coq(bk), bid, exp)
 }
 
@@ -275,6 +279,8 @@ func (o Out) Coq() string {
 		body = lib.App("BReports", lib.List(xs))
 	case "empty":
 		body = "BEmpty"
+	case "doc":
+		body = "BDoc"
 	}
 	return lib.App("OutResp", lib.App("Resp", lib.N(uint64(o.Status)), body))
 }
@@ -303,7 +309,7 @@ func (c Case) Coq() string {
 // Header is the Require line of the case shards, followed by the string table.
 func Header(prop string) string {
 	var sb strings.Builder
-	sb.WriteString("From Relay Require Import Base.Prelude Model.DenyStore Model.Token Model.Access Corr.Access_common Corr." + prop + ".\n")
+	sb.WriteString("From Relay Require Import Base.Prelude Model.DenyStore Model.Token Model.Access Model.Routing Corr.Access_common Corr." + prop + ".\n")
 	strMu.Lock()
 	defer strMu.Unlock()
 	for i, s := range strOrder {
